@@ -40,12 +40,16 @@ static const long long big = 0x123456789abcLL;
 const unsigned char flags8 = 200;
 const short neg16 = -12345;
 volatile int gv;
+struct big { char buf[300]; short s; };
+struct big bigvar;
+static const double dconst = 2.5;
+static const __int128 wide = ((__int128)0x1122334455667788LL << 64) | 0x99aabbccddeeff00ULL;
 static inline int helper(int a) { int r = 0; { int k = a * 2; r += k; { int m = k + 1; r += sink(m); } } return r; }
 int walk(struct node *n, enum color c) { int s = 0; for (; n; n = n->next) { int t = n->p.x + helper(n->p.y); if (c == RED) { int q = t * 2; s += sink(q); } else s += t; } return s; }
 int arr[10];
 __attribute__((noinline)) int many(int a, int b, int c) { int x = a + b; int y = sink(x) * c; int z = y - a; gv = z; x = sink(y + z); for (int i = 0; i < b; i++) { int w = x * i; gv += sink(w); } return x + y + z; }
 __attribute__((cold)) void coldpath(int v) { gv = v; sink(v); }
-int main(int argc, char **argv) { struct node a = {0, {1,2}, {3}}; fn_t f = walk; if (argc > 5) coldpath(argc); return f(&a, argc > 1 ? RED : GREEN) + arr[argc] + other(&a.p) + many(argc, 3, 4) + (int)big + neg16; }
+int main(int argc, char **argv) { struct node a = {0, {1,2}, {3}}; fn_t f = walk; if (argc > 5) coldpath(argc); return f(&a, argc > 1 ? RED : GREEN) + arr[argc] + other(&a.p) + many(argc, 3, 4) + (int)big + neg16 + (int)dconst + (int)(wide >> 70) + bigvar.buf[argc]; }
 "#;
 
 pub const B_C: &str = r#"
